@@ -152,24 +152,18 @@ def colmap_for(settings_obj, tf_cols: list[str]) -> dict[str, str]:
 OPS = {E.GTE: "OpGe", E.GT: "OpGt", E.LTE: "OpLe", E.LT: "OpLt", E.EQ: "OpEq"}
 
 
-def translate(settings_obj, tf_cols: list[str], thr_prob, thr_weight, dialect: str, infinity_expr: str) -> dict:
-    """Returns Coq texts: gammas (list nx), bfs (list nx), tfs (list option nx), final (final_select)."""
-    from splink.internals.predict import predict_from_comparison_vectors_sqls_using_settings
+def select_items_of(tree) -> dict:
+    return {e.alias_or_name: (e.unalias() if isinstance(e, E.Alias) else e) for e in tree.expressions}
 
+
+def translate_selects(settings_obj, tf_cols: list[str], dialect: str, cv_items: dict, parts: dict, predict_tree) -> dict:
+    """cv_items / parts: alias -> expression of the comparison-vector and match-weight-parts selects;
+    predict_tree: the SELECT computing match_weight / match_probability (with its WHERE)."""
     conv = Conv(colmap_for(settings_obj, tf_cols), dialect)
-    # 1. gamma CASE statements, from the list of select expressions the pipeline really uses
-    cv_cols = settings_obj._columns_to_select_for_comparison_vector_values
     gammas = []
     for cc in settings_obj.comparisons:
-        mine = []
-        for c in cv_cols:
-            try:
-                e = sqlglot.parse_one("select " + c, read=dialect).expressions[0]
-            except Exception as ex:
-                raise Untranslatable(f"select item does not parse: {c[:80]}") from ex
-            if isinstance(e, E.Alias) and e.alias == cc._gamma_column_name:
-                mine.append(e.this)
-        if len(mine) != 1 or not isinstance(mine[0], E.Case):
+        g = cv_items.get(cc._gamma_column_name)
+        if not isinstance(g, E.Case):
             raise Untranslatable(f"gamma expression of {cc.output_column_name} not found as a single CASE")
         condmap = {}
         for i, lv in enumerate(cc.comparison_levels):
@@ -181,21 +175,14 @@ def translate(settings_obj, tf_cols: list[str], thr_prob, thr_weight, dialect: s
             if key not in condmap:
                 raise Untranslatable(f"WHEN condition is not a level condition: {key[:80]}")
             return f"(BCond {condmap[key]})"
-        gammas.append(conv.case(mine[0], cond_conv))
-    # 2./3. the two stages of predict
-    sqls = predict_from_comparison_vectors_sqls_using_settings(
-        settings_obj, thr_prob, thr_weight, sql_infinity_expression=infinity_expr)
-    by_name = {s["output_table_name"]: s["sql"] for s in sqls}
-    if set(by_name) != {"__splink__df_match_weight_parts", "__splink__df_predict"}:
-        raise Untranslatable(f"predict stages {sorted(by_name)}")
-    _, parts = _select_items(by_name["__splink__df_match_weight_parts"], dialect)
+        gammas.append(conv.case(g, cond_conv))
     bfs, tfs = [], []
     for cc in settings_obj.comparisons:
         if cc._bf_column_name not in parts:
             raise Untranslatable(f"no {cc._bf_column_name} item")
         bfs.append(conv.num(parts[cc._bf_column_name]))
         tfs.append(conv.num(parts[cc._bf_tf_adj_column_name]) if cc._bf_tf_adj_column_name in parts else None)
-    tree, items = _select_items(by_name["__splink__df_predict"], dialect)
+    items = select_items_of(predict_tree)
     mw = items.get("match_weight")
     if not (isinstance(mw, E.Log) and _num_literal(mw.this) == 2):
         raise Untranslatable("match_weight is not log2(..)")
@@ -203,7 +190,7 @@ def translate(settings_obj, tf_cols: list[str], thr_prob, thr_weight, dialect: s
     if "match_probability" not in items:
         raise Untranslatable("no match_probability item")
     prob = conv.num(items["match_probability"])
-    where = tree.args.get("where")
+    where = predict_tree.args.get("where")
     if where is None:
         wtxt = "None"
     else:
@@ -215,6 +202,30 @@ def translate(settings_obj, tf_cols: list[str], thr_prob, thr_weight, dialect: s
             raise Untranslatable(f"WHERE threshold {w.expression.sql()}")
         wtxt = f"(Some ({conv.num(w.this.expression)}, {OPS[type(w)]}, {q(lit)}))"
     final = f"{{| f_weight_arg := {weight_arg}; f_prob := {prob}; f_where := {wtxt} |}}"
-    # retained columns of the final select (intermediate columns must be present to be checked)
-    return {"gammas": gammas, "bfs": bfs, "tfs": tfs, "final": final,
-            "final_items": list(items.keys())}
+    return {"gammas": gammas, "bfs": bfs, "tfs": tfs, "final": final, "final_items": list(items.keys())}
+
+
+def translate(settings_obj, tf_cols: list[str], thr_prob, thr_weight, dialect: str, infinity_expr: str) -> dict:
+    """Returns Coq texts: gammas (list nx), bfs (list nx), tfs (list option nx), final (final_select)."""
+    from splink.internals.predict import predict_from_comparison_vectors_sqls_using_settings
+
+    # 1. gamma CASE statements, from the list of select expressions the pipeline really uses
+    cv_items = {}
+    for c in settings_obj._columns_to_select_for_comparison_vector_values:
+        try:
+            e = sqlglot.parse_one("select " + c, read=dialect).expressions[0]
+        except Exception as ex:
+            raise Untranslatable(f"select item does not parse: {c[:80]}") from ex
+        if isinstance(e, E.Alias):
+            if e.alias in cv_items:
+                raise Untranslatable(f"duplicate select item {e.alias}")
+            cv_items[e.alias] = e.this
+    # 2./3. the two stages of predict
+    sqls = predict_from_comparison_vectors_sqls_using_settings(
+        settings_obj, thr_prob, thr_weight, sql_infinity_expression=infinity_expr)
+    by_name = {s["output_table_name"]: s["sql"] for s in sqls}
+    if set(by_name) != {"__splink__df_match_weight_parts", "__splink__df_predict"}:
+        raise Untranslatable(f"predict stages {sorted(by_name)}")
+    _, parts = _select_items(by_name["__splink__df_match_weight_parts"], dialect)
+    tree, _ = _select_items(by_name["__splink__df_predict"], dialect)
+    return translate_selects(settings_obj, tf_cols, dialect, cv_items, parts, tree)
